@@ -3,6 +3,10 @@ from contracts import c05_fva as C5
 from contracts import c06_deletion as C6
 from pyvc.contract import chain_hooks
 from contracts import c05_fva_driver as CD
+from contracts import c14_fva_pool as CP
+from contracts import c14_essential as CE
+from contracts import c16_samplers as CX
+from contracts import c06_multi_deletion as CM
 from props._generic import run_property, replay_with_driver
 
 LEVEL = "other"
@@ -12,7 +16,11 @@ KEYS = ["_fva_step", "_reaction_deletion", "_gene_deletion", "_get_growth"]
 def run(rep):
     run_property(rep, KEYS, hooks=chain_hooks(C5.HOOKS, C6.HOOKS_G, C6.HOOKS_GG),
                  more=[(["deletion._init_worker", "_reaction_deletion_worker", "_gene_deletion_worker"], C6.HOOKS_W),
-                       (["_init_worker"], CD.HOOKS)], explanation=(
+                       (["_init_worker"], CD.HOOKS), (["flux_variability_analysis@pool"], CP.HOOKS),
+                       (["find_essential_genes", "find_essential_reactions"], CE.HOOKS),
+                       (["mp_init", "_sample_chain"], CX.HOOKS_C), (["OptGPSampler.sample"], CX.HOOKS_O),
+                       (["_multi_deletion", "_entities_ids", "_element_lists"], CM.HOOKS), (list(CM.WRAPPERS), CM.HOOKS_W)],
+                 lemmas=lambda: CP.lemmas() + CM.lemmas(), explanation=(
         "Contracts cannot speak about schedules; they remove the need to: what is proved is that each task is a function of (worker "
         "state at task entry, item) and hands the worker back in the state it found it. _fva_step: the LP is solved with exactly the "
         "requested reaction's +forward -reverse added, the returned pair is (requested id, solver value), and every objective "
@@ -24,11 +32,68 @@ def run(rep):
         "worker's private model in the module global (and, for FVA, set the sweep's direction), and _reaction_deletion_worker / "
         "_gene_deletion_worker call the proved function on that model with exactly the task's ids and return its result unchanged. "
         "By induction over a worker's task sequence every task then sees the initial state; "
-        "results are keyed by id. The Pool itself, OS scheduling, chunking and completion order are outside any sequential contract "
+        "results are keyed by id. flux_variability_analysis is proved for ANY `processes` (an int, or None -> configuration.processes; "
+        "serial and PARALLEL branch, max / min model, all reactions / a list, with / without pfba_factor) against an ASSUMED contract of "
+        "the pool: imap_unordered(f, items, chunksize >= 1) yields the results f(x) of every item exactly once in an ARBITRARY order "
+        "- a ghost permutation of [0, n) given with its inverse (bijection axioms), standing for the number of workers, the chunking "
+        "and the completion order - each evaluated in a worker that ran initializer(*initargs) on its own copy of the prepared model "
+        "and then any number of earlier tasks. That earlier tasks do not matter is NOT assumed: it is the modifies clause and the last "
+        "clause of _fva_step's proved post-condition (every objective coefficient as at entry; lemma worker-state-invariant), and "
+        "_fva_step's precondition is an obligation in the worker state. Proved with a loop invariant over the ARRIVAL index: for "
+        "EVERY requested id the stored minimum / maximum is exactly the value _fva_step returns for that id in a worker whose "
+        "direction is min / max (the very post-condition of the serial cases of C05, hence independent of the permutation, of "
+        "`processes` and of the chunk size); nothing is stored under a key that is not a requested id; the pool is used exactly "
+        "when min(processes, n) > 1, one pool per sweep created with exactly (min(processes, n), initializer=_init_worker, "
+        "initargs=(model, loopless, 'min' / 'max')) AFTER the constraints were added and the objective zeroed, one imap_unordered "
+        "(_fva_step, the requested ids in request order, chunksize = n // processes, proved >= 1), and the pool is left again also "
+        "when a task raises; the parent's model is untouched by the sweeps. Glue lemmas over the post-conditions: serial == "
+        "parallel for every id, and the value for an id in a list request == the value in the one-element request [id], both under "
+        "the hypothesis that the same LP (coefficients, direction, prepared model) has the same optimal value (C04). "
+        "find_essential_genes / find_essential_reactions (threshold None / given, processes None / int): threshold None -> 0.01 x the "
+        "optimum of a first solve; ONE recorded call of single_gene_deletion / single_reaction_deletion with exactly (model, "
+        "method='fba', processes=<the caller's, unchanged>); the Series iterated is exactly D.loc[D['growth'].isna() | (D['growth'] < "
+        "threshold), :].ids (data flow through the opaque algebra); the returned set is exactly the entities named by its entries, "
+        "and - with the ASSUMED row-wise semantics of isna / < / | / .loc and the assumed frame shape (one row per entity, ids = "
+        "{id}, ids known to the model) - exactly the entities with a row whose growth is NaN or below the threshold (both inclusions). "
+        "_multi_deletion (single / double gene / reaction deletion, all five methods) is proved for ANY `processes` against the same "
+        "assumed pool contract (plus assumed contracts for product / frozenset - a finite set C of combination identities with a "
+        "ghost enumeration - and for the lazy ordered map; the per-combination call of the deletion function is a recorded call "
+        "with the frame of its proved contract): processes = min(processes or configuration.processes, len(C)), the pool is used "
+        "exactly when that is > 1, with chunksize = len(C) // processes proved >= 1; in BOTH branches the frame has exactly one row "
+        "per combination of C, the row of c holds exactly (set(c), growth, status) the deletion function returned for c - stated "
+        "through the inverse permutation (loop invariant over the arrival index), hence independent of the completion order, of "
+        "`processes` and of the chunk size -, every row belongs to a combination, nothing occurs twice, and the deletion function "
+        "(through the proved worker contract on the worker's copy of the model) is called exactly once per combination; the pool "
+        "is left again also when a task raises. Glue lemmas over that post-condition: serial == parallel for every combination, "
+        "and the row of c in a request over C == the row in the one-element request {c}, under `same combination -> same result "
+        "of the deletion function`. The four public wrappers pass processes (and everything else) through unchanged. "
+        "The Pool itself, OS scheduling and pickling are outside any sequential contract "
         "language: bounded driver (processes 1-8, permutations, chunk sizes, seeded per-task delays injected into the workers, "
-        "single-item calls, exact oracle; reproducibility of parallel sampling)."),
+        "single-item calls, exact oracle; reproducibility of parallel sampling). "
+        "Parallel sampling (contracts/c16_samplers.py, opaque array algebra + exact integers; n >= 0, processes >= 1, thinning >= 1, nproj >= 1): "
+        "optgp._sample_chain((n, idx)) reseeds np.random exactly once with (seed + idx) % (2**31 - 1) BEFORE any draw, reads only sampler "
+        "fields and writes none but `retries` (centre and n_samples are updated locally), returns (retries, the n x . array whose row r was "
+        "written when the step counter was 1 + (r+1)*thinning with a point that passed the guard of step() or is a _random_point) - so a "
+        "chain is a function of (sampler fields, n, idx, the generator seeded with seed + idx); OptGPSampler.sample against the ASSUMED "
+        "ordered-map contract Pool.map: one pool (processes, mp_init, (self,)), one map(_sample_chain, [(ceil(n/processes), j) for j < "
+        "processes]) - the task precondition obliged for an arbitrary j in the worker state mp_init's proved contract leaves -, chains "
+        "stacked in index order, n <= rows returned = ceil(n/processes)*processes < n + processes, n_samples / centre / retries updated "
+        "with the numbers ACTUALLY generated; processes = 1: mp_init(self) + _sample_chain((n, 0)) in process."),
         trusted=["multiprocessing.Pool: each task runs once in a worker initialised on a private copy; imap_unordered yields every "
-                 "result once; map is ordered", "fork semantics", "C03 (undo actions restore the model)"])
+                 "result once in an arbitrary order (assumed contract Pool.imap_unordered, ghost permutation); map is ordered "
+                 "(assumed contract Pool.map)", "float division n / processes and np.ceil are exact (operands below 2**53)",
+                 "np.random draws are a deterministic function of the last seed and the draw sequence",
+                 "fork semantics (a worker's copy is isomorphic to the parent's model at pool creation)",
+                 "C03 (undo actions restore the model)", "the same LP has the same optimal value (hypothesis of the result lemmas; C04)",
+                 "pandas DataFrame.at[key, column] = value writes exactly that cell (recorded per column)",
+                 "single_gene_deletion / single_reaction_deletion as recorded calls returning a frame with one row per entity, ids = {id} "
+                 "of a gene / reaction of the model (assumed)", "row-wise semantics of Series.isna, <, |, DataFrame.loc[mask, :] "
+                 "(assumed contract pandas.rowwise)",
+                 "itertools.product / frozenset / set as a finite set of opaque combination identities with a ghost enumeration (assumed "
+                 "contract itertools.product+frozenset)", "map is lazy and ordered (assumed contract builtins.map)",
+                 "_reaction_deletion / _gene_deletion on a frozenset of ids as a recorded call with the frame of its proved contract "
+                 "(assumed contract deletion-call)", "add_moma / add_room as recorded calls that may raise (proved under C09)",
+                 "the same combination has the same deletion result (hypothesis of the _multi_deletion glue lemmas; C04 / C06 kernel)"])
 
 
 def replay(payload):
